@@ -191,7 +191,7 @@ def run(ctx):
     # the two direction tests run for EVERY other present id: the only pair skipped is (arg, arg) itself
     for c in cont:
         gl = [g for g in guard_strs(gc, c.bb) if not re.match(r"^V1:next\(", g)]
-        extra = [g for g in gl if not re.fullmatch(r"F:eq\((arg_id,next\(.*\)#Some\.0\.0|next\(.*\)#Some\.0\.0,arg_id)\)|F:contains\(.*\)", g)]
+        extra = [g for g in gl if not re.fullmatch(r"(F:eq|T:ne)\((arg_id,next\(.*\)#Some\.0\.0|next\(.*\)#Some\.0\.0,arg_id)\)|F:contains\(.*\)", g)]
         res.check(not extra, "R3.4", "direction-tests-for-every-other-id", c.where(), "conflict tests skipped only for the id itself",
                   "gather_conflicts skips its conflict test for some present ids (extra condition %s): a declared conflict between an argument and %s is never evaluated" % (extra[:2], "those ids"))
     ga = fx.body("clap_builder::parser::validator::gather_arg_direct_conflicts")
@@ -223,7 +223,15 @@ def run(ctx):
     # ---- R3.5 exemptions
     vq = fx.body("clap_builder::parser::validator::Validator::validate_required")
     pushes = [c for c in vq.calls_to(r"Vec::push$") if re.match(r"^(deref_mut\()?missing_required|^new\(\)", expr(vq, c.args[0]))]
-    res.floor("R3.5", "missing_required.push sites", len(pushes), 4)
+    # (a push loop may be written as missing_required.extend(iter.filter(..).map(..)): counted, the display-only completion is the usual one)
+    ext_mr = [c for c in vq.calls_to(r"Extend(<[^>]*>)?>?::extend$") if re.match(r"^(deref_mut\()?missing_required|^new\(\)", expr(vq, c.args[0]))]
+    for c in ext_mr:
+        e_ = expr(vq, c.args[1])
+        if re.search(r"get_positionals\(", e_):
+            res.ok("R3.5", "push|display-only", c.where(), "display-only completion of preceding positionals (extend form)")
+        else:
+            res.violation("R3.5", "push|unclassified|extend", c.where(), "missing_required.extend(%s): requirements added in bulk under unrecognised conditions" % e_[:80])
+    res.floor("R3.5", "missing_required.push sites", len(pushes) + len(ext_mr), 4)
     for k, c in enumerate(pushes):
         gl = bool_facts(vq, c.bb)
         val = expr(vq, c.args[1])
